@@ -2,7 +2,7 @@
 //! exactly the request that caused it, views stay stable. See `ecverif::microrun`.
 fn main() {
     ecverif::microrun::main_for(
-        ecverif::microrun::Profile { key: "c01", drops: false, timeouts: false, tx_fail: false, rx_noise: true },
+        ecverif::microrun::Profile { key: "c01", drops: false, timeouts: false, tx_fail: false, rx_noise: true, only: &[] },
         150,
         4000,
     );
